@@ -15,6 +15,8 @@ N5  `if a: if b: X` (no else on either) is written `if a and b: X`.
 N6  a conditional expression that is the whole value of an assignment to a plain name or of a return is
     spelled with statements: `t = A if c else B` -> `if c: t = A else: t = B`;
     `return A if c else B` -> `if c: return A` followed by `return B` (so the CFG carries the guard).
+N9  guard-clause form: when an `if` branch and the statements after it both always leave (return / raise), the
+    shorter alternative is the guarded branch (`if ok: <long>; return x` / `raise E` == `if not ok: raise E` / <long>).
 N8  keyword arguments of a call are ordered by name (no `**` splat present): evaluation order of pure
     argument expressions is irrelevant to every rule.
 
@@ -62,7 +64,8 @@ def _counts(fn):
         elif isinstance(n, (ast.Import, ast.ImportFrom)):
             for al in n.names:
                 banned.add((al.asname or al.name).split(".")[0])
-        elif isinstance(n, ast.Call) and isinstance(n.func, ast.Name) and n.func.id in ("locals", "vars", "eval", "exec"):
+        elif isinstance(n, ast.Call) and isinstance(n.func, ast.Name) and (
+                n.func.id in ("locals", "eval", "exec") or (n.func.id in ("vars", "dir") and not n.args)):
             return None
     return loads, stores, banned
 
@@ -184,6 +187,10 @@ def _ends_in_jump(block) -> bool:
     return bool(block) and isinstance(block[-1], (ast.Return, ast.Raise, ast.Continue, ast.Break))
 
 
+def _size(block) -> int:
+    return sum(1 for st in block for n in ast.walk(st) if isinstance(n, ast.stmt))
+
+
 def _single_assign(block):
     if len(block) == 1 and isinstance(block[0], ast.Assign) and len(block[0].targets) == 1 and isinstance(block[0].targets[0], ast.Name):
         return block[0]
@@ -207,12 +214,30 @@ def _structural(fn) -> int:
             while i < len(stmts):
                 s = stmts[i]
                 if isinstance(s, ast.If):
+                    # N4 (first): else after a branch that always leaves
+                    if s.orelse and _ends_in_jump(s.body):
+                        rest = s.orelse
+                        s.orelse = []
+                        stmts[i + 1:i + 1] = rest
+                        changed += 1
                     # N3
                     if s.orelse and isinstance(s.test, ast.UnaryOp) and isinstance(s.test.op, ast.Not) \
                             and not (len(s.orelse) == 1 and isinstance(s.orelse[0], ast.If)):
                         s.test = s.test.operand
                         s.body, s.orelse = s.orelse, s.body
                         changed += 1
+                    # N9 guard-clause form: of two alternatives that both leave, the shorter one is the guarded branch
+                    if not s.orelse and _ends_in_jump(s.body) and i + 1 < len(stmts) and _ends_in_jump(stmts[i + 1:]) \
+                            and not isinstance(owner, (ast.For, ast.AsyncFor, ast.While, ast.Try, ast.With, ast.AsyncWith)):
+                        tail = stmts[i + 1:]
+                        if _size(s.body) > _size(tail) and not any(isinstance(x, (ast.FunctionDef, ast.AsyncFunctionDef, ast.ClassDef)) for x in tail):
+                            body = s.body
+                            s.test = s.test.operand if isinstance(s.test, ast.UnaryOp) and isinstance(s.test.op, ast.Not) else \
+                                ast.copy_location(ast.UnaryOp(op=ast.Not(), operand=s.test), s.test)
+                            s.body = tail
+                            del stmts[i + 1:]
+                            stmts.extend(body)
+                            changed += 1
                     # N6: a conditional expression that is the whole value of an assignment / return is spelled as statements
                 if isinstance(s, ast.Assign) and isinstance(s.value, ast.IfExp) and len(s.targets) == 1 and isinstance(s.targets[0], ast.Name):
                     v = s.value
@@ -234,12 +259,6 @@ def _structural(fn) -> int:
                     changed += 1
                     continue
                 if isinstance(s, ast.If):
-                    # N4
-                    if s.orelse and _ends_in_jump(s.body):
-                        rest = s.orelse
-                        s.orelse = []
-                        stmts[i + 1:i + 1] = rest
-                        changed += 1
                     # N5
                     if not s.orelse and len(s.body) == 1 and isinstance(s.body[0], ast.If) and not s.body[0].orelse:
                         inner = s.body[0]
@@ -268,7 +287,7 @@ def normalize_tree(tree: ast.Module) -> int:
     funcs = [x for x in ast.walk(tree) if isinstance(x, (ast.FunctionDef, ast.AsyncFunctionDef))]
     for fn in reversed(funcs):
         for _ in range(4):
-            k = _structural(fn) + _normalize_function(fn)
+            k = _normalize_function(fn) + _structural(fn)
             n += k
             if not k:
                 break
